@@ -67,8 +67,13 @@ def gen_result(rng, payloads, style):
         return ["err", rng.choice(TOTAL_KINDS if style["kind"] != "transport" else ["lu", "pu", "ua", "cc"])]
     if r > 0.97:
         return ["none"] if rng.random() < 0.5 else ["resp", []]
-    if style.get("acks0") and rng.random() < 0.7:
-        return ["resp", []]
+    if style.get("acks0"):
+        # with acks=0 the client has no responses to report: empty answer, failed payloads, or a failure
+        x = rng.random()
+        if x < 0.6:
+            return ["resp", []]
+        fails = [[tp[0], tp[1], rng.choice(FAIL_KINDS), True] for tp in tps if rng.random() < 0.5]
+        return ["fail", [], fails] if fails else ["resp", []]
     resps, fails = [], []
     for tp in tps:
         x = rng.random()
